@@ -20,15 +20,35 @@ Lemma tfl_discard d d' : withDiscard d' (pass (tfl d)) = tfl d'. Proof. reflexiv
 Lemma tfl_last d : withReturning (Returning (tfl d)) (withDiscard (Discard (tfl d)) (pass (tfl d))) = tfl d.
 Proof. destruct d; reflexivity. Qed.
 
-Definition meaning := globals -> option (globals * res value).
+Definition meaning := world -> option (world * res value).
 
-Definition SG (v : vm) (G : globals) (mid : Z) (m : mem) : vm := St (set_globals v G) mid m.
+(* the world a machine holds *)
+Definition wof (v : vm) : world := {| w_glob := v_globals v; w_out := v_out v; w_in := v_in v |}.
+
+Definition set_world (v : vm) (W : world) : vm :=
+  {| v_cs := v_cs v; v_ncs := v_ncs v; v_ds := v_ds v; v_dbg := v_dbg v; v_globals := w_glob W;
+     v_mems := v_mems v; v_ctxs := v_ctxs v; v_frames := v_frames v; v_next := v_next v;
+     v_out := w_out W; v_in := w_in W; v_dead_read := v_dead_read v; v_grew_captured := v_grew_captured v |}.
+
+Definition SG (v : vm) (W : world) (mid : Z) (m : mem) : vm := St (set_world v W) mid m.
 
 Lemma set_globals_same v : set_globals v (v_globals v) = v.
 Proof. destruct v; reflexivity. Qed.
 
-Lemma SG_same v mid m : SG v (v_globals v) mid m = St v mid m.
-Proof. unfold SG. rewrite set_globals_same. reflexivity. Qed.
+Lemma set_world_same v : set_world v (wof v) = v.
+Proof. destruct v; reflexivity. Qed.
+
+Lemma wof_set_world v W : wof (set_world v W) = W.
+Proof. destruct W; reflexivity. Qed.
+
+Lemma set_world_glob v G : set_world v (wglob (wof v) G) = set_globals v G.
+Proof. reflexivity. Qed.
+
+Lemma wof_St v mid m : wof (St v mid m) = wof v.
+Proof. reflexivity. Qed.
+
+Lemma SG_same v mid m : SG v (wof v) mid m = St v mid m.
+Proof. unfold SG. rewrite set_world_same. reflexivity. Qed.
 
 Definition skind (K : Z) : Prop :=
   K = AddrStck \/ K = AddrTmp \/ K = AddrDS \/ K = AddrGbl \/ K = AddrInv.
@@ -46,12 +66,12 @@ Definition RunsS (M : meaning) (d : bool) (s s2 sd : cstate) (P : list Z) (K A :
   forall rr v mid m r G' res,
     code_at v (ncs s) P -> data_at v sd -> cur_mid v r = Good mid ->
     0 <= m_sp m <= zlen (m_stack m) -> r_ip r = ncs s ->
-    M (v_globals v) = Some (G', res) ->
+    M (wof v) = Some (G', res) ->
     match res with
     | Ok x => exists k m' r', steps rr k (St v mid m) r = SNext (SG v G' mid m') r' /\
                msame (m_sp m) m m' /\ r_ctx r' = r_ctx r /\ r_ip r' = ncs s2 /\
                (if d then m_sp m' = m_sp m + stack_effect K
-                else opnd (set_globals v G') (m_sp m) K A x m' r')
+                else opnd (set_world v G') (m_sp m) K A x m' r')
     | Fail err => exists k me ip vals, steps rr k (St v mid m) r = SErr (SG v G' mid me) (r_ctx r) ip err vals
     end.
 
@@ -76,23 +96,23 @@ Qed.
 (* a pure expression is a statement *)
 Lemma RunsK_S D keep d s s2 sd P K A (M : meaning) :
   RunsK D keep s s2 sd P K A ->
-  (forall G G' res, M G = Some (G', res) -> G' = G /\ res = D G) ->
+  (forall G G' res, M G = Some (G', res) -> G' = G /\ res = D (w_glob G)) ->
   RunsS M d s s2 sd P K A.
 Proof.
   intros H HM rr v mid m r G' res Hc Hdat Hm Hsp Hip HMv.
   destruct (HM _ _ _ HMv) as [-> ->].
-  specialize (H rr v mid m r Hc Hdat Hm Hsp Hip).
+  specialize (H rr v mid m r Hc Hdat Hm Hsp Hip). change (w_glob (wof v)) with (v_globals v).
   destruct (D (v_globals v)) as [x|err].
   - destruct H as [m' [r' [Hs [Hms [Hctx [Hip' [_ Ho]]]]]]].
-    exists (List.length P), m', r'. rewrite SG_same, set_globals_same. conj; try assumption.
+    exists (List.length P), m', r'. rewrite SG_same, set_world_same. conj; try assumption.
     destruct d; [exact (opnd_sp _ _ _ _ _ _ _ Ho)|exact Ho].
   - destruct H as [me [ip [vals Hs]]]. exists (List.length P), me, ip, vals. rewrite SG_same. exact Hs.
 Qed.
 
-Lemma pure_ssem n G t G' res : pure t = true -> ssem n G t = Some (G', res) -> G' = G /\ res = den G t.
+Lemma pure_ssem n G t G' res : pure t = true -> ssem n G t = Some (G', res) -> G' = G /\ res = den (w_glob G) t.
 Proof.
   intros Hp H. destruct n as [|n]; [discriminate H|].
-  assert (E : ssem (S n) G t = if Nat.leb (height t) (S n) then Some (G, den G t) else None).
+  assert (E : ssem (S n) G t = if Nat.leb (height t) (S n) then Some (G, den (w_glob G) t) else None).
   { destruct t; try reflexivity; discriminate Hp. }
   rewrite E in H. destruct (Nat.leb (height t) (S n)); [|discriminate H]. injection H as <- <-. auto.
 Qed.
@@ -111,12 +131,16 @@ Proof.
 Qed.
 
 (* ================= g = e ================= *)
-Lemma ssem_assign n G g e G' res :
-  ssem n G (NAssign (NName g) e) = Some (G', res) -> sem_simple G (NAssign (NName g) e) = (G', res).
+Lemma ssem_assign n W g e W' res :
+  ssem n W (NAssign (NName g) e) = Some (W', res) ->
+  exists G0, sem_simple (w_glob W) (NAssign (NName g) e) = (G0, res) /\ W' = wglob W G0.
 Proof.
   destruct n as [|n]; [discriminate|]. cbn [ssem]. destruct (Nat.leb (height e) n); [|discriminate].
-  intros H. injection H as H. exact H.
+  intros H. injection H as <- <-. eexists. split; [apply surjective_pairing|reflexivity].
 Qed.
+
+Lemma wglob_wof v : wglob (wof v) (v_globals v) = wof v.
+Proof. reflexivity. Qed.
 
 Lemma assign_specS g e d sel s s' w :
   assign_ok g e = true -> 0 <= sel <= 2 -> wfcs s ->
@@ -148,7 +172,8 @@ Proof.
     + right. right. right. left. reflexivity.
     + intros _. split; discriminate.
     + intros n rr v mid m r G' res Hc Hdat Hm Hsp Hip HM.
-      apply ssem_assign in HM. cbn [sem_simple] in HM. rewrite (den_inc g e (v_globals v) Hinc) in HM.
+      apply ssem_assign in HM. destruct HM as [G0 [HM ->]]. change (w_glob (wof v)) with (v_globals v) in HM.
+      cbn [sem_simple] in HM. rewrite (den_inc g e (v_globals v) Hinc) in HM.
       apply code_at_cons in Hc. destruct Hc as [Hi_inc _].
       assert (Hname : znth (v_ds v) (nds s) = Some (VStr g)).
       { apply Hdat. cbn [emitted rds s2 with_data]. rewrite (proj2 Hwf). apply znth_rev_cons. }
@@ -163,9 +188,9 @@ Proof.
         -- cbn [with_ip r_ip emitted ncs s2 with_data]. lia.
         -- destruct d; [unfold stack_effect; cbn; lia|].
            right. right. right. conj; [reflexivity|reflexivity|]. exists g. split; [exact Hname|].
-           cbn [set_globals v_globals]. symmetry. apply gval_set_same.
+           cbn [set_world v_globals wglob w_glob]. symmetry. apply gval_set_same.
       * injection HM as <- <-. exists 1%nat, m, (r_ip r), [gval (v_globals v) g].
-        rewrite steps_one, Hstep, SG_same. reflexivity.
+        rewrite steps_one, Hstep, wglob_wof, SG_same. reflexivity.
   - (* MOV *)
     apply cbind_ok in H. destruct H as [we [s1 [He H]]].
     apply cbind_ok in H. destruct H as [w1 [s2 [Href H]]].
@@ -195,7 +220,8 @@ Proof.
     + right. right. right. left. reflexivity.
     + intros _. split; discriminate.
     + intros n rr v mid m r G' res Hc Hdat Hm Hsp Hip HM.
-      apply ssem_assign in HM. cbn [sem_simple] in HM.
+      apply ssem_assign in HM. destruct HM as [G0 [HM ->]]. change (w_glob (wof v)) with (v_globals v) in HM.
+      cbn [sem_simple] in HM.
       pose proof (code_at_nth v (ncs s) code instr [] Hc) as Hi_mov.
       apply code_at_app in Hc. destruct Hc as [Hc _].
       assert (Hd1 : data_at v s1).
@@ -221,7 +247,7 @@ Proof.
         change (v_globals (St v mid m2)) with (v_globals v) in Hstep.
         destruct (is_nil x) eqn:Hnil.
         -- injection HM as <- <-. exists (List.length code + 1)%nat, m2, (r_ip r1), [x].
-           rewrite steps_app, Hs, steps_one, Hstep, SG_same. rewrite Hc1. reflexivity.
+           rewrite steps_app, Hs, steps_one, Hstep, wglob_wof, SG_same. rewrite Hc1. reflexivity.
         -- injection HM as <- <-.
            exists (List.length code + 1)%nat, m2, (with_ip r1 (r_ip r1 + 1)).
            rewrite steps_app, Hs, steps_one, Hstep. conj.
@@ -231,9 +257,76 @@ Proof.
            ++ cbn [with_ip r_ip emitted ncs s2 with_data]. lia.
            ++ destruct d; [unfold stack_effect; cbn; lia|].
               right. right. right. conj; [reflexivity|exact Hsp2|]. exists g. split; [exact Hname|].
-              cbn [set_globals v_globals]. symmetry. apply gval_set_same.
+              cbn [set_world v_globals wglob w_glob]. symmetry. apply gval_set_same.
       * injection HM as <- <-. destruct E as [me [ip [vals Hs]]].
-        exists (List.length code), me, ip, vals. rewrite SG_same. exact Hs.
+        exists (List.length code), me, ip, vals. rewrite wglob_wof, SG_same. exact Hs.
+Qed.
+
+(* ================= write(e) ================= *)
+Lemma ssem_write n W e W' res :
+  ssem n W (NWrite e) = Some (W', res) ->
+  match den (w_glob W) e with
+  | Ok x => W' = wwrite W (to_string fmt_float x) /\ res = Ok VNil
+  | Fail err => W' = W /\ res = Fail err
+  end.
+Proof.
+  destruct n as [|n]; [discriminate|]. cbn [ssem]. destruct (Nat.leb (height e) n); [|discriminate].
+  destruct (den (w_glob W) e); intros H; injection H as <- <-; auto.
+Qed.
+
+Lemma write_range : 0 <= WRITE < 128. Proof. unfold WRITE. lia. Qed.
+
+Lemma write_out_world v s : write_out v s = set_world v (wwrite (wof v) s).
+Proof. reflexivity. Qed.
+
+Lemma write_specS e d sel s s' w :
+  pure e = true -> 0 <= sel <= 2 -> wfcs s ->
+  comp (NWrite e) sel (tfl d) s = COk (w, s') ->
+  SpecS (NWrite e) d sel s s' w.
+Proof.
+  intros Hp Hsel Hwf H. cbn [comp] in H. rewrite tfl_pass in H.
+  apply cbind_ok in H. destruct H as [we [s1 [He H]]].
+  apply cbind_ok in H. destruct H as [u0 [s2 [Hem Hres]]].
+  apply emit_ok in Hem. subst s2. apply enc_ok in Hres. destruct Hres as [-> Ew].
+  apply (comp_pure_spec e Hp 0 (tfl false) s we s1 ltac:(lia) Hwf) in He. apply SpecD_lay in He.
+  destruct He as [code [K [A (L1 & W1 & Ee & Ok1 & _ & NT & X)]]].
+  assert (NK : K <> AddrTmp) by (apply NT; reflexivity).
+  set (instr := Z.lor (New WRITE) we) in *.
+  assert (Hdi : decode instr = {| f_op := WRITE; f_k0 := K; f_k1 := 0; f_k2 := 0; f_a0 := A; f_a1 := 0; f_a2 := 0 |})
+    by (apply (decode_op0 WRITE K A we write_range (okind_range K Ok1) Ee)).
+  exists (code ++ [instr]), AddrStck, 0. conj.
+  - apply lay_emit. exact L1.
+  - apply wfcs_emitted. exact W1.
+  - exact Ew.
+  - left. reflexivity.
+  - intros _. split; discriminate.
+  - intros n rr v mid m r W' res Hc Hdat Hm Hsp Hip HM.
+    apply ssem_write in HM. change (w_glob (wof v)) with (v_globals v) in HM.
+    pose proof (code_at_nth v (ncs s) code instr [] Hc) as Hi_w.
+    apply code_at_app in Hc. destruct Hc as [Hc _].
+    assert (Hd1 : data_at v s1) by exact Hdat.
+    pose proof (X rr v mid m r Hc Hd1 Hm Hsp Hip) as E.
+    destruct (den (v_globals v) e) as [x|err].
+    + destruct HM as [-> ->]. destruct E as [m1 [r1 [Hs [Hm1 [Hc1 [Hi1 [_ Ho]]]]]]].
+      assert (Hat : at_ip v r1 mid instr).
+      { split; [rewrite Hi1; destruct L1 as (_ & N & _); rewrite N; exact Hi_w|].
+        rewrite (cur_mid_ctx v r r1 Hc1). exact Hm. }
+      destruct (fetch_opnd v mid (m_sp m) m K A x m1 r1 Ho NK Hm1) as [m2 [Hf [Hm2 Hs2]]].
+      pose proof (step_write v mid m1 r1 rr instr K 0 0 A 0 0 Hat Hdi) as Hstep.
+      rewrite Hf in Hstep. cbn [obind] in Hstep. rewrite write_out_St in Hstep.
+      assert (Hsp2 : 0 <= m_sp m2 <= zlen (m_stack m2)) by (destruct Hm2 as (_&_&_&_&_&B); lia).
+      destruct (vPush_St (write_out v (to_string fmt_float x)) mid m2 VNil Hsp2) as [m3 [Hpush [Hm3 [Hsp3 Htop]]]].
+      rewrite Hpush in Hstep. cbn [obind lift next] in Hstep.
+      exists (List.length code + 1)%nat, m3, (with_ip r1 (r_ip r1 + 1)).
+      rewrite steps_app, Hs, steps_one, Hstep. conj.
+      * reflexivity.
+      * apply (msame_trans (m_sp m) (m_sp m2) m m2 m3); [lia|exact Hm2|exact Hm3].
+      * cbn [with_ip r_ctx]. exact Hc1.
+      * cbn [with_ip r_ip emitted ncs]. destruct L1 as (_ & N & _). lia.
+      * destruct d; [unfold stack_effect; cbn; lia|].
+        left. conj; [reflexivity|lia|]. rewrite <- Hs2. exact Htop.
+    + destruct HM as [-> ->]. destruct E as [me [ip [vals Hs]]].
+      exists (List.length code), me, ip, vals. rewrite SG_same. exact Hs.
 Qed.
 
 (* ================= blocks ================= *)
@@ -340,11 +433,12 @@ Proof.
         apply code_at_app in Hc1. destruct Hc1 as [HcX _].
         destruct Lr as (Rr & Nr & [dr Dr]). cbn [emitted rds] in Dr.
         assert (Hd1 : data_at v s1) by (apply (data_at_ext v s1 s' dr Hdat Dr)).
-        destruct (ssem n' (v_globals v) x) as [[G1 [xv|e]]|] eqn:Ex1; [| |contradiction].
+        destruct (ssem n' (wof v) x) as [[G1 [xv|e]]|] eqn:Ex1; [| |contradiction].
         -- pose proof (Xx n' rr v mid m r G1 (Ok xv) HcX Hd1 Hm Hsp Hip Ex1) as E1. cbn beta iota in E1.
            destruct E1 as [k1 [m1 [r1 [Hs1 [Hm1 [Hc1 [Hi1 Hsp1]]]]]]].
            rewrite EK in Hsp1. unfold stack_effect in Hsp1. cbn in Hsp1.
-           set (v1 := set_globals v G1).
+           set (v1 := set_world v G1).
+           assert (HW1 : G1 = wof v1) by (symmetry; apply wof_set_world). rewrite HW1 in HM.
            assert (Hat : at_ip v1 r1 mid (New POP)).
            { split; [change (v_cs v1) with (v_cs v); rewrite Hi1; destruct Lx as (_ & N & _); rewrite N; exact Hi_pop|].
              change (cur_mid v1 r1) with (cur_mid v r1). rewrite (cur_mid_ctx v r r1 Hc1). exact Hm. }
@@ -388,11 +482,12 @@ Proof.
         apply code_at_app in Hc. destruct Hc as [HcX HcR].
         destruct Lr as (Rr & Nr & [dr Dr]).
         assert (Hd1 : data_at v s1) by (apply (data_at_ext v s1 s' dr Hdat Dr)).
-        destruct (ssem n' (v_globals v) x) as [[G1 [xv|e]]|] eqn:Ex1; [| |contradiction].
+        destruct (ssem n' (wof v) x) as [[G1 [xv|e]]|] eqn:Ex1; [| |contradiction].
         -- pose proof (Xx n' rr v mid m r G1 (Ok xv) HcX Hd1 Hm Hsp Hip Ex1) as E1. cbn beta iota in E1.
            destruct E1 as [k1 [m1 [r1 [Hs1 [Hm1 [Hc1 [Hi1 Hsp1]]]]]]].
            unfold stack_effect in Hsp1. rewrite (proj2 (Z.eqb_neq Kx AddrStck) NK) in Hsp1.
-           set (v1 := set_globals v G1).
+           set (v1 := set_world v G1).
+           assert (HW1 : G1 = wof v1) by (symmetry; apply wof_set_world). rewrite HW1 in HM.
            assert (HcR' : code_at v1 (ncs s1) Cr).
            { change (code_at v (ncs s1) Cr). destruct Lx as (_ & N & _). rewrite N. exact HcR. }
            assert (Hm1' : cur_mid v1 r1 = Good mid).
@@ -569,7 +664,7 @@ Proof. reflexivity. Qed.
 Lemma ssem_if n G c b G' res :
   ssem n G (NIf c b) = Some (G', res) ->
   exists n', n = S n' /\
-    match cond_res (den G c) with
+    match cond_res (den (w_glob G) c) with
     | Fail e => G' = G /\ res = Fail e
     | Ok true => ssem n' G b = Some (G', res)
     | Ok false => G' = G /\ res = Ok VNil
@@ -577,7 +672,7 @@ Lemma ssem_if n G c b G' res :
 Proof.
   destruct n as [|n]; [discriminate|]. cbn [ssem]. destruct (Nat.leb (height c) n); [|discriminate].
   intros H. exists n. split; [reflexivity|].
-  destruct (cond_res (den G c)) as [[|]|e]; [exact H|injection H as <- <-; auto|injection H as <- <-; auto].
+  destruct (cond_res (den (w_glob G) c)) as [[|]|e]; [exact H|injection H as <- <-; auto|injection H as <- <-; auto].
 Qed.
 
 Lemma lay_wfcs s s' code : lay s s' code -> wfcs s -> nds s' = zlen (rds s') -> wfcs s'.
@@ -593,7 +688,7 @@ Proof.
   intros Hat Hd. rewrite steps_one, (step_jmp v mid m1 r1 rr instr _ _ _ _ _ _ Hat Hd). reflexivity.
 Qed.
 
-Lemma set_globals_twice v G1 G2 : set_globals (set_globals v G1) G2 = set_globals v G2.
+Lemma set_world_twice v G1 G2 : set_world (set_world v G1) G2 = set_world v G2.
 Proof. reflexivity. Qed.
 
 (* if in discarded position *)
@@ -653,7 +748,7 @@ Proof.
   - exact Sk.
   - discriminate.
   - intros n rr v mid m r G' res Hc Hdat Hm Hsp Hip HM.
-    apply ssem_if in HM. destruct HM as [n' [-> HM]].
+    apply ssem_if in HM. destruct HM as [n' [-> HM]]. change (w_glob (wof v)) with (v_globals v) in HM.
     assert (Hend : ncs s3 = ncs s + zlen Cc + 1 + zlen Ct + zlen post).
     { destruct L3 as (_ & N & _). rewrite N. unfold zlen. rewrite !app_length. cbn [List.length]. rewrite app_length. lia. }
     assert (Hcj' : code_at v (ncs s) (Cc ++ [Z.lor jinstr wp])).
@@ -685,7 +780,7 @@ Proof.
         destruct Hpost as [[EK ->]|[NK ->]].
         -- (* POP *)
            rewrite EK in Hsp2. unfold stack_effect in Hsp2. cbn in Hsp2.
-           set (v2 := set_globals v G').
+           set (v2 := set_world v G').
            assert (Hat : at_ip v2 r2 mid (New POP)).
            { split.
              - change (v_cs v2) with (v_cs v). rewrite Hi2.
@@ -803,7 +898,7 @@ Proof.
   - left. reflexivity.
   - intros _. split; discriminate.
   - intros n rr v mid m r G' res Hc Hdat Hm Hsp Hip HM.
-    apply ssem_if in HM. destruct HM as [n' [-> HM]].
+    apply ssem_if in HM. destruct HM as [n' [-> HM]]. change (w_glob (wof v)) with (v_globals v) in HM.
     assert (N1 : ncs s1 = ncs s + zlen Cc + 1).
     { destruct Lc as (_ & N & _). rewrite N. unfold zlen. rewrite app_length. cbn [List.length]. lia. }
     assert (N2 : ncs s2 = ncs s1 + zlen Ct) by (destruct Lt as (_ & N & _); exact N).
@@ -857,7 +952,7 @@ Proof.
       pose proof (Xt n' rr v mid m1 r1 G' res HcT Hdt2 Hm1' Hsp1' Hi1' HM) as Et2.
       destruct res as [x|err].
       * destruct Et2 as [k2 [m2 [r2 [Hs2 [Hm2 [Hc2 [Hi2 Ho2]]]]]]]. cbn beta iota in Ho2.
-        set (v2 := set_globals v G') in *.
+        set (v2 := set_world v G') in *.
         assert (Hm02 : msame (m_sp m) m m2).
         { apply (msame_trans (m_sp m) (m_sp m1) m m1 m2); [lia|exact Hm1|exact Hm2]. }
         rewrite Hsp1 in Ho2.
@@ -904,7 +999,7 @@ Proof.
       { right. right. left. conj; [reflexivity|exact Hsp1|exact Hnil]. }
       destruct (exec_push rr v mid pnil AddrDS (nds s3) _ _ _ _ (m_sp m) m m1 r1 VNil Hat Hdn (proj1 Hsp) Ho ltac:(discriminate) Hm1)
         as [m3 [Hs3 [Hm3 [Hsp3 Hx3]]]].
-      exists (k1 + 1)%nat, m3, (with_ip r1 (r_ip r1 + 1)). rewrite steps_app, Hs1, Hs3, SG_same, set_globals_same. conj.
+      exists (k1 + 1)%nat, m3, (with_ip r1 (r_ip r1 + 1)). rewrite steps_app, Hs1, Hs3, SG_same, set_world_same. conj.
       * reflexivity.
       * exact Hm3.
       * cbn [with_ip r_ctx]. exact Hc1.
@@ -928,7 +1023,7 @@ Proof.
   pose proof (Xt rr v mid m r G' res HcT Hdat Hm Hsp Hip HM) as E.
   destruct res as [x|err]; [|exact E].
   destruct E as [k2 [m2 [r2 [Hs2 [Hm2 [Hc2 [Hi2 Ho2]]]]]]].
-  set (v2 := set_globals v G') in *.
+  set (v2 := set_world v G') in *.
   unfold push_code in *. destruct (Z.eqb_spec Kt AddrStck) as [EK|NK].
   - exists k2, m2, r2. rewrite app_nil_r in *. conj; try assumption.
     + rewrite Hi2, N3. unfold zlen. cbn. lia.
@@ -993,7 +1088,7 @@ Proof. reflexivity. Qed.
 Lemma ssem_ifelse n G c a b G' res :
   ssem n G (NIfElse c a b) = Some (G', res) ->
   exists n', n = S n' /\
-    match cond_res (den G c) with
+    match cond_res (den (w_glob G) c) with
     | Fail e => G' = G /\ res = Fail e
     | Ok true => ssem n' G a = Some (G', res)
     | Ok false => ssem n' G b = Some (G', res)
@@ -1001,7 +1096,7 @@ Lemma ssem_ifelse n G c a b G' res :
 Proof.
   destruct n as [|n]; [discriminate|]. cbn [ssem]. destruct (Nat.leb (height c) n); [|discriminate].
   intros H. exists n. split; [reflexivity|].
-  destruct (cond_res (den G c)) as [[|]|e]; [exact H|exact H|injection H as <- <-; auto].
+  destruct (cond_res (den (w_glob G) c)) as [[|]|e]; [exact H|exact H|injection H as <- <-; auto].
 Qed.
 
 Lemma word_not_inv K A w : 0 <= K < 8 -> K <> AddrInv -> EncodeSrc 0 K A = Some w -> (w =? AddrInv) = false.
@@ -1073,7 +1168,7 @@ Proof.
   - left. reflexivity.
   - intros _. split; discriminate.
   - intros n rr v mid m r G' res Hc Hdat Hm Hsp Hip HM.
-    apply ssem_ifelse in HM. destruct HM as [n' [-> HM]].
+    apply ssem_ifelse in HM. destruct HM as [n' [-> HM]]. change (w_glob (wof v)) with (v_globals v) in HM.
     assert (N1 : ncs s1 = ncs s + zlen Cc + 1).
     { destruct Lc as (_ & N & _). rewrite N. unfold zlen. rewrite app_length. cbn [List.length]. lia. }
     assert (N3' : ncs s3 = ncs s1 + zlen PT).
@@ -1120,9 +1215,9 @@ Proof.
       - destruct Lf as (_ & N & _). exact N.
       - destruct Lpf as (_ & N & _). exact N. }
     assert (Post : forall (x : value) m3 r3, msame (m_sp m) m m3 ->
-              opnd (set_globals v G') (m_sp m) AddrStck 0 x m3 r3 ->
+              opnd (set_world v G') (m_sp m) AddrStck 0 x m3 r3 ->
               if d then m_sp m3 = m_sp m + stack_effect AddrStck
-              else opnd (set_globals v G') (m_sp m) AddrStck 0 x m3 r3).
+              else opnd (set_world v G') (m_sp m) AddrStck 0 x m3 r3).
     { intros x m3 r3 _ Ho. destruct d; [exact (opnd_sp _ _ _ _ _ _ _ Ho)|exact Ho]. }
     destruct (cond_res (den (v_globals v) c)) as [[|]|e].
     + (* then *)
@@ -1133,7 +1228,7 @@ Proof.
       pose proof (XT rr v mid m1 r1 G' res Hcode_t Hd2 Hm1' Hsp1' Hi1' HM) as E2.
       destruct res as [x|err].
       * destruct E2 as [k2 [m2 [r2 [Hs2 [Hm2 [Hc2 [Hi2 Ho2]]]]]]]. cbn beta iota in Ho2. rewrite Hsp1 in Ho2.
-        set (v2 := set_globals v G') in *.
+        set (v2 := set_world v G') in *.
         assert (Hatj : at_ip v2 r2 mid jT).
         { split; [change (v_cs v2) with (v_cs v); rewrite Hi2; exact Hi_jT|].
           change (cur_mid v2 r2) with (cur_mid v r2). rewrite (cur_mid_ctx v r1 r2 Hc2). exact Hm1'. }
@@ -1190,7 +1285,7 @@ Lemma comp_while_discard_unfold c body srcsel fl :
    enc srcsel AddrInv 0).
 Proof. intros H. cbn [comp]. rewrite H. reflexivity. Qed.
 
-Definition bodyloop (n : nat) (c b : node) (k : nat) (G : globals) : option (globals * res value) :=
+Definition bodyloop (n : nat) (c b : node) (k : nat) (G : world) : option (world * res value) :=
   match ssem n G b with
   | None => None
   | Some (G1, Fail e) => Some (G1, Fail e)
@@ -1199,7 +1294,7 @@ Definition bodyloop (n : nat) (c b : node) (k : nat) (G : globals) : option (glo
 
 Lemma swhile_S n c b k G last :
   swhile_of n c b (S k) G last =
-  match cond_res (den G c) with
+  match cond_res (den (w_glob G) c) with
   | Fail e => Some (G, Fail e)
   | Ok false => Some (G, Ok last)
   | Ok true => bodyloop n c b k G
@@ -1217,7 +1312,7 @@ Lemma loop_runs n c b sB s2 s3 s4 sd Cb Kb Ab Cc2 j2 endAddr :
   forall k rr v mid m r G' res,
     code_at v (ncs sB) (Cb ++ pop_code Kb ++ Cc2 ++ [j2]) -> data_at v sd -> data_at v s4 ->
     cur_mid v r = Good mid -> 0 <= m_sp m <= zlen (m_stack m) -> r_ip r = ncs sB ->
-    bodyloop n c b k (v_globals v) = Some (G', res) ->
+    bodyloop n c b k (wof v) = Some (G', res) ->
     match res with
     | Ok x => exists j m' r', steps rr j (St v mid m) r = SNext (SG v G' mid m') r' /\
                 msame (m_sp m) m m' /\ m_sp m' = m_sp m /\ r_ctx r' = r_ctx r /\ r_ip r' = endAddr
@@ -1227,15 +1322,16 @@ Proof.
   intros XB N2 N3 XC2 Hend.
   induction k as [|k IH]; intros rr v mid m r G' res Hc Hdat Hdat4 Hm Hsp Hip HB.
   - (* no iteration left: only a failing body gives a result *)
-    unfold bodyloop in HB. destruct (ssem n (v_globals v) b) as [[G1 [bv|e]]|] eqn:Eb; try discriminate HB.
+    unfold bodyloop in HB. destruct (ssem n (wof v) b) as [[G1 [bv|e]]|] eqn:Eb; try discriminate HB.
     injection HB as <- <-.
     apply code_at_app in Hc. destruct Hc as [HcB _].
     exact (XB rr v mid m r G1 (Fail e) HcB Hdat Hm Hsp Hip Eb).
-  - unfold bodyloop in HB. destruct (ssem n (v_globals v) b) as [[G1 [bv|e]]|] eqn:Eb; try discriminate HB.
+  - unfold bodyloop in HB. destruct (ssem n (wof v) b) as [[G1 [bv|e]]|] eqn:Eb; try discriminate HB.
     + pose proof Hc as Hc0. apply code_at_app in Hc. destruct Hc as [HcB Hc']. apply code_at_app in Hc'. destruct Hc' as [HcP HcC].
       pose proof (XB rr v mid m r G1 (Ok bv) HcB Hdat Hm Hsp Hip Eb) as E1. cbn beta iota in E1.
       destruct E1 as [k1 [m1 [r1 [Hs1 [Hm1 [Hc1 [Hi1 Hsp1]]]]]]].
-      set (v1 := set_globals v G1) in *.
+      set (v1 := set_world v G1) in *.
+      assert (HW1 : G1 = wof v1) by (symmetry; apply wof_set_world).
       (* after the optional POP *)
       assert (Popped : exists k2 m2 r2, steps rr k2 (St v1 mid m1) r1 = SNext (St v1 mid m2) r2 /\
                 msame (m_sp m) m m2 /\ m_sp m2 = m_sp m /\ r_ctx r2 = r_ctx r /\ r_ip r2 = ncs s3).
@@ -1258,15 +1354,15 @@ Proof.
       assert (Hm2' : cur_mid v1 r2 = Good mid).
       { change (cur_mid v1 r2) with (cur_mid v r2). rewrite (cur_mid_ctx v r r2 Hc2). exact Hm. }
       assert (Hsp2' : 0 <= m_sp m2 <= zlen (m_stack m2)) by (destruct Hm2 as (_&_&_&_&_&B); lia).
-      pose proof (XC2 rr v1 mid m2 r2 HcC' Hdat4 Hm2' Hsp2' Hi2) as Ec. change (v_globals v1) with G1 in Ec.
+      pose proof (XC2 rr v1 mid m2 r2 HcC' Hdat4 Hm2' Hsp2' Hi2) as Ec. change (v_globals v1) with (w_glob G1) in Ec.
       rewrite swhile_S in HB.
-      destruct (cond_res (den G1 c)) as [[|]|e].
+      destruct (cond_res (den (w_glob G1) c)) as [[|]|e].
       * (* again *)
         destruct Ec as [k3 [m3 [r3 [Hs3 [Hm3 [Hsp3 [Hc3 Hi3]]]]]]]. cbn [Bool.eqb] in Hi3.
         assert (Hm3' : cur_mid v1 r3 = Good mid).
         { rewrite (cur_mid_ctx v1 r2 r3 Hc3). exact Hm2'. }
         assert (Hsp3' : 0 <= m_sp m3 <= zlen (m_stack m3)) by (destruct Hm3 as (_&_&_&_&_&B); lia).
-        pose proof (IH rr v1 mid m3 r3 G' res Hc0 Hdat Hdat4 Hm3' Hsp3' Hi3 HB) as E4.
+        rewrite HW1 in HB. pose proof (IH rr v1 mid m3 r3 G' res Hc0 Hdat Hdat4 Hm3' Hsp3' Hi3 HB) as E4.
         assert (Hm03 : msame (m_sp m) m m3).
         { apply (msame_trans (m_sp m) (m_sp m2) m m2 m3); [lia|exact Hm2|exact Hm3]. }
         destruct res as [x|err].
@@ -1396,7 +1492,7 @@ Proof.
     assert (XC2 : CondRuns c false s3 s4 Cc2 j2' (ncs s1)).
     { pose proof (Xc2 (ncs s1 - addr2) wbk Ewbk) as X. replace (addr2 + (ncs s1 - addr2)) with (ncs s1) in X by lia. exact X. }
     pose proof (loop_runs n' c body s1 s2 s3 s4 s2 Cb Kb Ab Cc2 j2' (ncs s4) (Xb n') N2 N3 XC2 N4) as LR.
-    destruct n' as [|k]; [discriminate HM|]. rewrite swhile_S in HM.
+    destruct n' as [|k]; [discriminate HM|]. rewrite swhile_S in HM. change (w_glob (wof v)) with (v_globals v) in HM.
     destruct (cond_res (den (v_globals v) c)) as [[|]|e].
     + destruct Ec as [k1 [m1 [r1 [Hs1 [Hm1 [Hsp1 [Hc1 Hi1]]]]]]]. cbn [Bool.eqb] in Hi1.
       assert (Hm1' : cur_mid v r1 = Good mid) by (rewrite (cur_mid_ctx v r r1 Hc1); exact Hm).
@@ -1493,11 +1589,11 @@ Lemma loopv_runs n c b sB s2 s4 sd Cb Kb Ab Cc2 j2 P hd E2 :
     code_at v P (New POP :: Cb ++ Cc2 ++ [j2]) -> data_at v sd -> data_at v s4 ->
     cur_mid v r = Good mid -> 0 <= b0 -> msame b0 m0 m ->
     r_ip r = hd -> m_sp m = b0 + stack_effect Kb ->
-    bodyloop n c b k (v_globals v) = Some (G', res) ->
+    bodyloop n c b k (wof v) = Some (G', res) ->
     match res with
     | Ok x => exists j m' r', steps rr j (St v mid m) r = SNext (SG v G' mid m') r' /\
                 msame b0 m0 m' /\ r_ctx r' = r_ctx r /\ r_ip r' = E2 /\
-                opnd (set_globals v G') b0 Kb Ab x m' r'
+                opnd (set_world v G') b0 Kb Ab x m' r'
     | Fail err => exists j me ip vals, steps rr j (St v mid m) r = SErr (SG v G' mid me) (r_ctx r) ip err vals
     end.
 Proof.
@@ -1516,7 +1612,7 @@ Proof.
       cbn [with_ip r_ip]. lia.
     - exists 0%nat, m, r. cbn [steps]. conj; try assumption; try reflexivity. lia. }
   induction k as [|k IH]; intros rr v mid m0 b0 m r G' res Hc Hdat Hdat4 Hm Hb0 Hms Hip Hsp HB.
-  - unfold bodyloop in HB. destruct (ssem n (v_globals v) b) as [[G1 [bv|e]]|] eqn:Eb; try discriminate HB.
+  - unfold bodyloop in HB. destruct (ssem n (wof v) b) as [[G1 [bv|e]]|] eqn:Eb; try discriminate HB.
     injection HB as <- <-.
     destruct (Body rr v mid m0 b0 m r Hc Hm Hb0 Hms Hip Hsp) as [ja [ma [ra [Hsa [Hma [Hspa [Hca Hia]]]]]]].
     assert (HcB : code_at v (ncs sB) Cb).
@@ -1526,7 +1622,7 @@ Proof.
     pose proof (XB rr v mid ma ra G1 (Fail e) HcB Hdat Hma' Hspa' ltac:(rewrite Hia, NB; reflexivity) Eb) as E1.
     cbn beta iota in E1. destruct E1 as [k1 [me [ip [vals Hs1]]]].
     exists (ja + k1)%nat, me, ip, vals. rewrite steps_app, Hsa, Hs1. rewrite Hca. reflexivity.
-  - unfold bodyloop in HB. destruct (ssem n (v_globals v) b) as [[G1 [bv|e]]|] eqn:Eb; try discriminate HB.
+  - unfold bodyloop in HB. destruct (ssem n (wof v) b) as [[G1 [bv|e]]|] eqn:Eb; try discriminate HB.
     + destruct (Body rr v mid m0 b0 m r Hc Hm Hb0 Hms Hip Hsp) as [ja [ma [ra [Hsa [Hma [Hspa [Hca Hia]]]]]]].
       pose proof Hc as Hc0. apply code_at_cons in Hc. destruct Hc as [_ Hc]. apply code_at_app in Hc. destruct Hc as [HcB' HcC].
       assert (HcB : code_at v (ncs sB) Cb) by (rewrite NB; exact HcB').
@@ -1534,22 +1630,23 @@ Proof.
       assert (Hspa' : 0 <= m_sp ma <= zlen (m_stack ma)) by (destruct Hma as (_&_&_&_&_&B); lia).
       pose proof (XB rr v mid ma ra G1 (Ok bv) HcB Hdat Hma' Hspa' ltac:(rewrite Hia, NB; reflexivity) Eb) as E1.
       cbn beta iota in E1. destruct E1 as [k1 [m1 [r1 [Hs1 [Hm1 [Hc1 [Hi1 Ho1]]]]]]]. rewrite Hspa in Ho1, Hm1.
-      set (v1 := set_globals v G1) in *.
+      set (v1 := set_world v G1) in *.
+      assert (HW1 : G1 = wof v1) by (symmetry; apply wof_set_world).
       assert (HcC' : code_at v1 (ncs s2) (Cc2 ++ [j2])).
       { change (code_at v (ncs s2) (Cc2 ++ [j2])). rewrite N2, NB. exact HcC. }
       assert (Hm1' : cur_mid v1 r1 = Good mid).
       { change (cur_mid v1 r1) with (cur_mid v r1). rewrite (cur_mid_ctx v ra r1 Hc1). exact Hma'. }
       assert (Hsp1' : 0 <= m_sp m1 <= zlen (m_stack m1)) by (destruct Hm1 as (_&_&_&_&_&B); lia).
-      pose proof (XC2 rr v1 mid m1 r1 HcC' Hdat4 Hm1' Hsp1' Hi1) as Ec. change (v_globals v1) with G1 in Ec.
+      pose proof (XC2 rr v1 mid m1 r1 HcC' Hdat4 Hm1' Hsp1' Hi1) as Ec. change (v_globals v1) with (w_glob G1) in Ec.
       rewrite swhile_S in HB.
       assert (Hm01 : msame b0 m0 m1) by (apply (msame_trans b0 b0 m0 ma m1); [lia|exact Hma|exact Hm1]).
-      destruct (cond_res (den G1 c)) as [[|]|e].
+      destruct (cond_res (den (w_glob G1) c)) as [[|]|e].
       * destruct Ec as [k3 [m3 [r3 [Hs3 [Hm3 [Hsp3 [Hc3 Hi3]]]]]]]. cbn [Bool.eqb] in Hi3.
         pose proof (opnd_transfer v1 b0 Kb Ab bv m1 r1 m3 r3 Ho1 NTmp Hm3 Hsp3 Hb0) as Ho3.
         assert (Hm03 : msame b0 m0 m3).
         { apply (msame_trans b0 (m_sp m1) m0 m1 m3); [destruct Hm1 as (_&_&_&_&_&B); lia|exact Hm01|exact Hm3]. }
         assert (Hm3' : cur_mid v1 r3 = Good mid) by (rewrite (cur_mid_ctx v1 r1 r3 Hc3); exact Hm1').
-        pose proof (IH rr v1 mid m0 b0 m3 r3 G' res Hc0 Hdat Hdat4 Hm3' Hb0 Hm03 Hi3 (opnd_sp _ _ _ _ _ _ _ Ho3) HB) as E4.
+        rewrite HW1 in HB. pose proof (IH rr v1 mid m0 b0 m3 r3 G' res Hc0 Hdat Hdat4 Hm3' Hb0 Hm03 Hi3 (opnd_sp _ _ _ _ _ _ _ Ho3) HB) as E4.
         destruct res as [x|err].
         -- destruct E4 as [k4 [m4 [r4 [Hs4 [Hm4 [Hc4 [Hi4 Ho4]]]]]]].
            exists (ja + (k1 + (k3 + k4)))%nat, m4, r4.
@@ -1735,7 +1832,7 @@ Proof.
     { pose proof (Xc2 (hd - addr2) wbk) as X. replace (addr2 + (hd - addr2)) with hd in X by lia. apply X.
       unfold hd. rewrite NB in Ewbk. destruct (Kb =? AddrStck); exact Ewbk. }
     pose proof (loopv_runs n' c body sB s2 s4 s2 Cb Kb Ab Cc2 j2' (ncs s1) hd (ncs s4) (Xb n') NTmp NB N2 eq_refl XC2 N4) as LR.
-    destruct n' as [|k]; [discriminate HM|]. rewrite swhile_S in HM.
+    destruct n' as [|k]; [discriminate HM|]. rewrite swhile_S in HM. change (w_glob (wof v)) with (v_globals v) in HM.
     destruct (cond_res (den (v_globals v) c)) as [[|]|e].
     + (* the loop runs at least once *)
       destruct Ec as [k1 [m1 [r1 [Hs1 [Hm1 [Hsp1 [Hc1 Hi1]]]]]]]. cbn [Bool.eqb] in Hi1.
@@ -1759,7 +1856,7 @@ Proof.
       pose proof (LR k rr v mid m (m_sp m) me re G' res HcodeL Hd2 Hd4 Hme' (proj1 Hsp) Hme Hie Hspe HM) as E2.
       destruct res as [x|err].
       * destruct E2 as [k2 [m2 [r2 [Hs2 [Hm2 [Hc2 [Hi2 Ho2]]]]]]].
-        set (v2 := set_globals v G') in *.
+        set (v2 := set_world v G') in *.
         assert (Hm2' : cur_mid v2 r2 = Good mid).
         { change (cur_mid v2 r2) with (cur_mid v r2). rewrite (cur_mid_ctx v re r2 Hc2). exact Hme'. }
         destruct (run_push_code rr v2 mid (m_sp m) m m2 r2 Kb Ab wb0 x (ncs s4) Ho2 Hm2 (proj1 Hsp) NTmp Skb Eb HcodeP Hi2 Hm2')
@@ -1779,7 +1876,7 @@ Proof.
     + (* never: the nil that was pushed is the value *)
       injection HM as <- <-.
       destruct Ec as [k1 [m1 [r1 [Hs1 [Hm1 [Hsp1 [Hc1 Hi1]]]]]]]. cbn [Bool.eqb] in Hi1.
-      exists (1 + k1)%nat, m1, r1. rewrite steps_app, Hsa. fold ra. rewrite Hs1, SG_same, set_globals_same. conj.
+      exists (1 + k1)%nat, m1, r1. rewrite steps_app, Hsa. fold ra. rewrite Hs1, SG_same, set_world_same. conj.
       * reflexivity.
       * apply (msame_trans (m_sp m) (m_sp ma) m ma m1); [lia|exact Hma|exact Hm1].
       * rewrite Hc1. reflexivity.
@@ -1800,6 +1897,7 @@ Section WInd.
   Hypothesis HIf : forall c b, pure c = true -> wstmt b = true -> Q b -> Q (NIf c b).
   Hypothesis HIfElse : forall c a b, pure c = true -> wstmt a = true -> wstmt b = true -> Q a -> Q b -> Q (NIfElse c a b).
   Hypothesis HWhile : forall c b, pure c = true -> wstmt b = true -> Q b -> Q (NWhile c b).
+  Hypothesis HWrite : forall e, pure e = true -> Q (NWrite e).
 
   Fixpoint wstmt_induction (t : node) : wstmt t = true -> Q t.
   Proof.
@@ -1814,6 +1912,7 @@ Section WInd.
       clear Hw. induction l as [|x r IHr]; [constructor|].
       cbn [forallb] in Hall. apply andb_prop in Hall. destruct Hall as [Hx Hr].
       constructor; [apply wstmt_induction; exact Hx|apply IHr; exact Hr].
+    - apply HWrite. exact Hw.
   Defined.
 End WInd.
 
@@ -1832,4 +1931,5 @@ Proof.
   - intros c b Hc _ Hb d sel s w s' -> Hwf H. destruct d.
     + apply (while_discard_specS c b 0 s s' w ltac:(lia) Hc Hb Hwf H).
     + apply (while_value_specS c b s s' w Hc Hb Hwf H).
+  - intros e Hp d sel s w s' -> Hwf H. apply (write_specS e d 0 s s' w Hp ltac:(lia) Hwf H).
 Qed.
